@@ -226,6 +226,10 @@ def generate_c(contract, ov):
         w.update(wit)
         kindname = n.split(":")[0]
         props = contract.side_props.get(kindname, contract.properties) if hasattr(contract, "side_props") else contract.properties
+        if kindname.startswith("inv-"):
+            # a loop invariant carries every clause of the unit (the ledger and the error indicator included): it belongs to
+            # all the properties the unit is checked for
+            props = tuple(dict.fromkeys(tuple(contract.properties) + tuple(getattr(contract, "extra_properties", ()))))
         obs.append(Obligation("%s/%s" % (name0, n), pc, goal, kind=kindname, props=props, witness=w,
                               concretise=info.get("concretise")))
     for n, hits in cover_hits.items():
